@@ -324,6 +324,32 @@ func corr(c *hc.Ctx) []*canvas.Path {
 					nops = len(script) + c.Intn(3)
 				}
 				c.Count("scenario:optimizeClose")
+			} else if s.head[0] == 'E' && len(s.ops) == 0 && c.Chance(0.12) {
+				// scenario: reversing collinear LineTos, axis-parallel and diagonal, both directions
+				// (regression guard for the dominant-axis test of LineTo, /repo 219108c)
+				dirs := []hc.P2{{X: 1, Y: 0}, {X: -1, Y: 0}, {X: 0, Y: 1}, {X: 0, Y: -1}, {X: 1, Y: 1}, {X: -1, Y: -1}, {X: 1, Y: -1}, {X: -1, Y: 1},
+					{X: -2, Y: -3}, {X: 3, Y: -2}, {X: -3, Y: 1}, {X: 0.25, Y: -0.5}}
+				di := c.Intn(len(dirs))
+				d := dirs[di].Mul(float64(1 + c.Intn(4)))
+				a := pool[0]
+				back := []float64{0, 0.5, -1, 1.5}[c.Intn(4)] // end of the second line as a + back*d: 1.5 extends, the others reverse
+				e := a.Add(d.Mul(back))
+				script = []op{{k: 'M', f: []float64{a.X, a.Y}}, {k: 'L', f: []float64{a.X + d.X, a.Y + d.Y}}, {k: 'L', f: []float64{e.X, e.Y}}}
+				if c.Chance(0.5) {
+					script = append(script, op{k: 'Z'})
+				}
+				if nops < len(script) {
+					nops = len(script) + c.Intn(3)
+				}
+				kind := "diagonal"
+				if di < 4 {
+					kind = "axis"
+				}
+				if back > 1 {
+					c.Count("scenario:collinear-extension:" + kind)
+				} else {
+					c.Count("scenario:collinear-reversal:" + kind)
+				}
 			}
 			for n := 0; n < nops; n++ {
 				o := genOp(c, pool)
